@@ -360,21 +360,25 @@ func c10Select(c *Ctx, p *Prog) {
 		}
 	}
 	c.Check(strings.Join(order, ",") == "t100,t10,t1", R, "CommonScale:threshold-order", site, "thresholds are tried from coarse to fine", fmt.Sprintf("thresholds are tried in the order %v, must be t100, t10, t1", order))
-	// (b) minimum over absolute non-zero values
+	// (b) minimum over absolute non-zero values: the loop (in CommonScale or in a helper of the package it calls)
+	// that takes math.Abs of the values
 	var lp *loopInfo
-	for _, l := range naturalLoops(fn) {
-		has := false
-		for b := range l.Blocks {
-			for _, in := range b.Instrs {
-				if _, ok := callIs(in, "math", "", "Abs"); ok {
-					has = true
-				}
+	cands := []*ssa.Function{fn}
+	eachInstr(fn, func(_ *ssa.BasicBlock, in ssa.Instruction) {
+		if call, ok := in.(*ssa.Call); ok {
+			if sc := call.Call.StaticCallee(); sc != nil && sc.Blocks != nil && sc.Pkg == fn.Pkg {
+				cands = append(cands, sc)
 			}
 		}
-		if has || lp == nil {
-			lp = l
-			if has {
-				break
+	})
+	for _, g := range cands {
+		for _, l := range naturalLoops(g) {
+			for b := range l.Blocks {
+				for _, in := range b.Instrs {
+					if _, ok := callIs(in, "math", "", "Abs"); ok && lp == nil {
+						lp = l
+					}
+				}
 			}
 		}
 	}
@@ -382,8 +386,6 @@ func c10Select(c *Ctx, p *Prog) {
 		c.Undecided(R, "CommonScale:min-loop", site, "no loop selecting the smallest magnitude")
 		return
 	}
-	// take the first loop (over vals)
-	lp = naturalLoops(fn)[0]
 	var minPhi *ssa.Phi
 	for _, in := range lp.Header.Instrs {
 		if phi, ok := in.(*ssa.Phi); ok && isFloat(phi.Type()) {
